@@ -140,9 +140,11 @@ class _Rewrite(ast.NodeTransformer):
         return ast.Call(func=ast.Name(id='__vf_ite', ctx=ast.Load()),
                         args=[lam(node.test), lam(node.body), lam(node.orelse)], keywords=[])
 
+    keep_int = False     # the generated code binds the name `int` itself (a wire called int): the call must see that binding
+
     def visit_Call(self, node):
         self.generic_visit(node)
-        if isinstance(node.func, ast.Name) and node.func.id == 'int':
+        if isinstance(node.func, ast.Name) and node.func.id == 'int' and not self.keep_int:
             node.func = ast.Name(id='__vf_int', ctx=ast.Load())
         return node
 
@@ -166,7 +168,10 @@ def _fast_compile(source, filename, mode, *a, **k):
         return builtins.compile(source, filename, mode, *a, **k)
     LAST_FAST_SOURCE[0] = source
     tree = ast.parse(source)
-    tree = _Rewrite().visit(tree)
+    rw = _Rewrite()
+    rw.keep_int = any(isinstance(n, ast.Name) and n.id == 'int' and isinstance(n.ctx, ast.Store) for n in ast.walk(tree)) or \
+        any(isinstance(n, ast.arg) and n.arg == 'int' for n in ast.walk(tree))
+    tree = rw.visit(tree)
     pre = ast.parse('from vf.simdrv import _vf_ite as __vf_ite\nfrom vf.sym import sym_int as __vf_int\n')
     tree.body = pre.body + tree.body
     ast.fix_missing_locations(tree)
